@@ -556,6 +556,34 @@ def real_returns(f, L):
     return [b for b in reach if f.blocks[b]["term"]["k"] == "return" and not L.succ(b)]
 
 
+_DECODE_HELPER = {}
+
+
+def is_decode_helper(P, g, site_paths, fname, depth=0):
+    k = (g.path, fname)
+    if k in _DECODE_HELPER:
+        return _DECODE_HELPER[k]
+    _DECODE_HELPER[k] = False
+    body = X.async_body(P, g)
+    L = X.LogicalCFG(body)
+    dec = set()
+    for bi, t in body.calls():
+        callee = t.get("f") or ""
+        if callee in site_paths and t["args"] and (arg_field(body, t["args"][0]) or (None,))[0] == fname:
+            dec.add(bi)
+        elif depth < 2:
+            h = P.fns.get(callee)
+            if h is not None and h.crate == g.crate and h.kind != "Closure" and h is not g and callee not in site_paths \
+                    and is_decode_helper(P, h, site_paths, fname, depth + 1):
+                dec.add(bi)
+    ok = False
+    if dec:
+        reach = {0} | L.reachable(0, avoid=tuple(dec)) if 0 not in dec else set()
+        ok = not any(b in reach for b in real_returns(body, L))
+    _DECODE_HELPER[k] = ok
+    return ok
+
+
 def decode_before_next_chunk(res, f, key, rule, starts, decodes, acquires, what):
     """Must-pass-through: from every point where bytes were added to the reassembly buffer, every (logical) path to the next
     chunk acquisition or to a return passes a decode attempt.  Otherwise a complete message can sit in the buffer while the
@@ -722,6 +750,12 @@ def check_buf1(res, P, sites):
             res.ok("buf1:%s:chunk-appended" % f.path, "BUF-1", "every dequeued chunk flows into an append on the buffer")
         starts = [bi for bi, t in f.calls() if APPEND.match(cname(t)) and t["args"] and (arg_field(f, t["args"][0]) or (None,))[0] == fname]
         decodes = [bi for bi, t in f.calls() if (t.get("f") or "") in site_paths and t["args"] and (arg_field(f, t["args"][0]) or (None,))[0] == fname]
+        # a decode attempt moved into a private helper (`self.take_buffered_msg()`): a function of the module that runs the
+        # retry site on the buffer field on every path to its return counts as the attempt
+        for bi, t in f.calls():
+            g = P.fns.get(t.get("f") or "")
+            if g is not None and g.crate == f.crate and g.kind != "Closure" and g.path not in site_paths and is_decode_helper(P, g, site_paths, fname):
+                decodes.append(bi)
         decode_before_next_chunk(res, f, "buf1:%s:decode-after-append" % f.path, "BUF-1", starts, decodes, deq,
                                  "a chunk is appended to `%s`" % fname)
 
@@ -753,12 +787,25 @@ def same_value(f, a, b):
 
 def check_buf2(res, P, sites):
     loops = []
+    lifted = {}
     for f in P.by_crate["pallas_network2"]:
         if is_test_code(f) or "::emulation::" in f.path:
             continue
         cs = [(bi, t) for bi, t in f.calls() if (t.get("g") or t.get("f") or "").endswith("Message::from_payload") and t.get("trait")]
+        if cs and f.kind == "Closure" and f.argc >= 1 and not X.is_coroutine_state_ty(f.local_ty(1)):
+            # the decode loop written as a closure (`iter::from_fn(|| M::from_payload(channel, &mut payload)).collect()`):
+            # key and buffer are captured variables; the attempt is judged where the closure is built, in the parent
+            for bi, t in cs:
+                k, b = X.lift_operand(P, f, t["args"][0]), X.lift_operand(P, f, t["args"][1])
+                if k is None or b is None:
+                    res.violation("buf2:%s:closure" % f.path, "%s calls from_payload on values the rule cannot follow to the enclosing function "
+                                  "(fail closed)" % f.path, where=where(f, t.get("s")), rule="BUF-2")
+                    continue
+                lifted.setdefault(k[0].path, (k[0], []))[1].append((k[1], {"args": [k[2], b[2]], "s": t.get("s"), "lifted_from": f.path}))
+            continue
         if cs:
             loops.append((f, cs))
+    loops += list(lifted.values())
     res.count("buf2_reassembly_loops", len(loops))
     res.floor("buf2-reassembly-loops", len(loops), 1)
     for f, cs in loops:
